@@ -6,7 +6,8 @@ Open Scope nat_scope.
 
 Definition rc_of (a : apc) : bool := match a with AClose2 | ADone => true | _ => false end.
 Definition dc_of (a : apc) : bool := match a with ADone => true | _ => false end.
-Definition is_wait (a : apc) : bool := match a with AWait _ => true | _ => false end.
+(* the assembler has handed a batch over and waits (or is about to wait) for the acknowledgement *)
+Definition is_wait (a : apc) : bool := match a with ASent _ | AWait _ => true | _ => false end.
 
 (* the condition between calls: the assembler waits on [done] exactly when a batch has been
    received and not acknowledged (not first, not closed); once closed, the channel is closed *)
@@ -82,7 +83,7 @@ Proof.
     unfold do_sync in H. cbn [cs ap rc dc] in H.
     destruct (sync (fixed le) r d c a) as [[c' a']|] eqn:E; [|discriminate]. injection H as <-.
     unfold sync in E. unfold hinv_c in Hc. unfold hinv. cbn [cs ap rc dc].
-    destruct (pc c) eqn:Hpc; try discriminate; destruct a as [b rest|rest| | | |]; try discriminate;
+    destruct (pc c) eqn:Hpc; try discriminate; destruct a as [b rest|rest|rest| | | |]; try discriminate;
       cbn [rc_of dc_of is_wait] in *.
     + destruct d; [discriminate|]. injection E as <- <-.
       destruct (a_next_props le rest) as [Hp [Hw [Hr Hd]]]. rewrite Hr, Hd, Hw.
@@ -100,7 +101,7 @@ Proof.
       hsplit. unfold hinv_c, set_pc. cbn [pc closed]. tauto.
   - (* consumer alone *)
     unfold do_tau_c in H. cbn [cs ap rc dc] in H.
-    destruct (tau_c (fixed le) r d c) as [c'|] eqn:E; [|discriminate]. injection H as <-.
+    destruct (tau_c (fixed le) r d (is_parked a) c) as [c'|] eqn:E; [|discriminate]. injection H as <-.
     unfold hinv. cbn [cs ap rc dc]. hsplit.
     unfold tau_c in E. unfold hinv_c in Hc. destruct (pc c) eqn:Hpc.
     + destruct (ops c) as [|o ro]; [discriminate|]. destruct o as [n|m|]; injection E as <-.
@@ -127,7 +128,7 @@ Proof.
     destruct (tau_a (fixed le) a r d) as [[[a' r'] d']|] eqn:E; [|discriminate]. injection H as <-.
     unfold tau_a in E. cbn [initiated fixed negb orb] in E. unfold hinv. cbn [cs ap rc dc].
     destruct a; try discriminate; cbn [rc_of dc_of is_wait] in *; subst r d; injection E as <- <- <-;
-      (hsplit; eapply hinv_c_rc_true; exact Hc).
+      (hsplit; first [exact Hc | eapply hinv_c_rc_true; exact Hc]).
 Qed.
 
 (* ---- the consumer program eventually closes or reads to EOF *)
@@ -166,7 +167,7 @@ Proof.
   - unfold do_sync in H. cbn [cs ap rc dc] in H.
     destruct (sync (fixed le) r d c a) as [[c' a']|] eqn:E; [|discriminate]. injection H as <-. cbn [cs].
     unfold sync in E. unfold goodb in Hg.
-    destruct (pc c) eqn:Hpc; try discriminate; destruct a as [b rest|rest| | | |]; try discriminate.
+    destruct (pc c) eqn:Hpc; try discriminate; destruct a as [b rest|rest|rest| | | |]; try discriminate.
     + destruct d; [discriminate|]. injection E as <- _. unfold goodb, set_pc. cbn [closed pc ops].
       cbn [pc_good] in *. exact Hg.
     + destruct r; [discriminate|]. injection E as <- _. unfold read_recv_ok. apply good_loop.
@@ -179,7 +180,7 @@ Proof.
     + destruct d; [discriminate|]. injection E as <- _. unfold goodb, set_pc. cbn [closed pc ops pc_good].
       rewrite orb_true_r. reflexivity.
   - unfold do_tau_c in H. cbn [cs ap rc dc] in H.
-    destruct (tau_c (fixed le) r d c) as [c'|] eqn:E; [|discriminate]. injection H as <-. cbn [cs].
+    destruct (tau_c (fixed le) r d (is_parked a) c) as [c'|] eqn:E; [|discriminate]. injection H as <-. cbn [cs].
     unfold tau_c in E. unfold goodb in Hg. unfold hinv_c in Hc. destruct (pc c) eqn:Hpc.
     + destruct (ops c) as [|o ro] eqn:Hops; [discriminate|]. cbn [pc_good] in Hg. rewrite orb_false_r in Hg.
       destruct o as [n|m|]; injection E as <-.
@@ -214,16 +215,16 @@ Proof.
       * right. eexists. right. right. reflexivity.
       * left. auto.
     + right. destruct o; eexists; right; left; reflexivity.
-  - destruct Hc as [Hw _]. destruct a; try discriminate. cbn in Hdc. subst d.
-    right. eexists. left. reflexivity.
+  - destruct Hc as [Hw _]. destruct a; try discriminate; cbn in Hdc; subst d; right; eexists;
+      [right; right; reflexivity | left; reflexivity].
   - destruct Hc as [Hw _]. destruct a; try discriminate; cbn in Hrc, Hdc; subst r d; try congruence;
       right; eexists; [left | right; right | right; left | right; left]; reflexivity.
-  - destruct Hc as [Hw _]. destruct a; try discriminate. cbn in Hdc. subst d.
-    right. eexists. left. reflexivity.
+  - destruct Hc as [Hw _]. destruct a; try discriminate; cbn in Hdc; subst d; right; eexists;
+      [right; right; reflexivity | left; reflexivity].
   - destruct Hc as [Hw _]. destruct a; try discriminate; cbn in Hrc, Hdc; subst r d; try congruence;
       right; eexists; [left | right; right | right; left | right; left]; reflexivity.
-  - destruct Hc as [Hw _]. destruct a; try discriminate. cbn in Hdc. subst d.
-    right. eexists. left. reflexivity.
+  - destruct Hc as [Hw _]. destruct a; try discriminate; cbn in Hdc; subst d; right; eexists;
+      [right; right; reflexivity | left; reflexivity].
   - contradiction.
 Qed.
 
